@@ -546,6 +546,43 @@ theorem c02_xsendfile2_contained (lc : Bool) (xdoc : List Bytes) (value p : Byte
                 have := pathSimplify_head_canonical _ (lowerBytes_head_slash hhead)
                 simpa [lowerBytes] using canonical_map_toLower this
 
+/-- the status a backend put on its own response (`Status: 403` next to `X-Sendfile:` …) has no say in
+    WHICH file is opened or WHETHER one is: for every status the file handed to the static-file sender
+    is the one `xsendfilePath` accepts, so `c02_xsendfile_contained` holds whatever the backend sent
+    (the attack: a refusal signalled only through `r->http_status` is invisible when the backend had
+    already set that very status) -/
+theorem c02_xsendfile_status_irrelevant (lc : Bool) (xdoc : List Bytes) (st : Nat) (raw p : Bytes) :
+    xsendfileAt lc xdoc st raw = .send p ↔ xsendfilePath lc xdoc raw = .send p := by
+  unfold xsendfileAt
+  by_cases hu : validUtf8 (urldecodePath raw) = true
+  · simp only [hu, Bool.not_true, Bool.false_eq_true, ↓reduceIte]
+    split <;> simp_all
+  · have hu' : validUtf8 (urldecodePath raw) = false := by simpa using hu
+    have : xsendfilePath lc xdoc raw = .status 502 := by
+      unfold xsendfilePath; simp [hu']
+    simp [hu', this]
+
+theorem c02_xsendfile_contained_any_status (lc : Bool) (xdoc : List Bytes) (st : Nat) (raw p : Bytes)
+    (hx : xdoc ≠ []) (hwf : ∀ x ∈ xdoc, x.head? = some slash)
+    (h : xsendfileAt lc xdoc st raw = .send p) :
+    CanonicalAbs p ∧ ∃ x ∈ xdoc, isPrefixOf lc x p = true ∧ (lc = false → ∃ rest, p = x ++ rest) ∧
+      (lc = false → endsWithSlash x = true → LexBelow x p) :=
+  c02_xsendfile_contained lc xdoc raw p hx hwf ((c02_xsendfile_status_irrelevant lc xdoc st raw p).mp h)
+
+theorem c02_xsendfile2_contained_any_status (lc : Bool) (xdoc : List Bytes) (st : Nat) (value p : Bytes)
+    (hx : xdoc ≠ []) (hwf : ∀ x ∈ xdoc, x.head? = some slash)
+    (h : xsendfile2At lc xdoc st value = .send p) :
+    CanonicalAbs p ∧ ∃ x ∈ xdoc, isPrefixOf lc x p = true := by
+  apply c02_xsendfile2_contained lc xdoc value p hx hwf
+  unfold xsendfile2At at h
+  split at h <;> simp_all
+
+/-- outside the docroot nothing is opened whatever status the backend chose, 403 included (the status then
+    shown is the backend's own when that was >= 300, as the tail of the C function restores it) -/
+example : xsendfileAt false [ofString "/srv/files/"] 403 (ofString "/srv/secret/canary.txt") = .status 403 := by decide +kernel
+example : xsendfileAt false [ofString "/srv/files/"] 403 (ofString "/srv/files/a.txt")
+    = .send (ofString "/srv/files/a.txt") := by decide +kernel
+
 example : xsendfilePath false [ofString "/srv/files/"] (ofString "/srv/files/%2e%2e/%2e%2e/etc/passwd")
     = .status 403 := by decide +kernel
 example : xsendfilePath false [ofString "/srv/files/"] (ofString "/srv/x/../files/a%2fb")
